@@ -12,10 +12,19 @@
 (* Invariants (design level):                                                                                        *)
 (*   RefSound      every admitted step is Entailed (finite models / arithmetic grid, C18_Sem) with hyps \subseteq prems *)
 (*   DbSound       every sequent in db is a consequence of the premises it was derived from                            *)
+(*   ClosedRefutes an admitted step closed into a whole proof (assume premises, step, assume complements, resolution)    *)
+(*                 refutes its assumptions                                                                              *)
 (*   SchemaTyped   every candidate is a well-typed boolean step                                                        *)
 (* The candidates are emitted as vectors and replayed into macro.eval of the real code (C18_AletheTrace judges them). *)
 EXTENDS C18_Rules, Json, IOUtils
 \* ------------------------------------------------------------------ the machine
+\* A candidate step that needs no extra argument can be CLOSED into a whole refutation proof:
+\*     assume every premise; the step; assume the complement of every literal of its clause; resolution of all of them
+\* The assumed formulas are jointly unsatisfiable exactly when the step is a consequence of its premises.
+Wrappable(i) == /\ i.x = NoX /\ Judged(i) /\ i.rule # "verit_subproof" /\ \A j \in 1..Len(i.prems) : i.prems[j].h = <<>>
+                /\ i.mut \in WrapMuts
+WrapAssumed(i) == [j \in 1..Len(i.prems) |-> i.prems[j].c] \o [k \in 1..Len(i.cl) |-> Neg(i.cl[k])]
+AsPrems(fs) == [j \in 1..Len(fs) |-> PS(fs[j])]
 VARIABLES cand, db, phase
 vars == <<cand, db, phase>>
 Init == cand \in Candidates /\ db = {} /\ phase = "pending"
@@ -24,7 +33,10 @@ Step == /\ phase = "pending" /\ cand.mut = "correct"
         /\ db' = db \cup {[from |-> cand.prems, th |-> ResOfRule(cand)]} /\ phase' = "admitted" /\ UNCHANGED cand
 Reject == /\ phase = "pending" /\ cand.mut # "correct"
           /\ phase' = "rejected" /\ UNCHANGED <<cand, db>>
-Next == Step \/ Reject
+\* close the proof: the empty clause from the admitted step and the complements of its literals
+Close == /\ phase = "admitted" /\ Wrappable(cand)
+         /\ db' = db \cup {[from |-> AsPrems(WrapAssumed(cand)), th |-> PS(FalseC)]} /\ phase' = "refuted" /\ UNCHANGED cand
+Next == Step \/ Reject \/ Close
 Spec == Init /\ [][Next]_vars
 
 StepTyped(prems, res) == \A t \in StepTerms(prems, res) : TypeOf(t, <<>>) = BoolT
@@ -34,12 +46,28 @@ RefSound == (cand.mut = "correct" /\ Judged(cand)) =>
                /\ Entailed(cand.prems, ResOfRule(cand))
                /\ HypsSubset(cand.prems, ResOfRule(cand))
 DbSound == \A e \in db : Judged(cand) => Entailed(e.from, e.th)
+\* a closed proof of an intended step really refutes what it assumed (and the oracle could tell)
+ClosedRefutes == phase = "refuted" => /\ Tier(AsPrems(WrapAssumed(cand)), PS(FalseC)) # "none"
+                                     /\ Entailed(AsPrems(WrapAssumed(cand)), PS(FalseC))
 \* explicit near misses are really not consequences (the oracle can tell them apart)
-NearMissRefuted == (Judged(cand) /\ cand.mut \in {"nm.outerhyp", "nm.intonly", "nm.strict", "nm.offbyone", "nm.binminus", "nm.zerodiv", "nm.freevar"})
+NearMissRefuted == (Judged(cand) /\ cand.mut \in {"nm.outerhyp", "nm.intonly", "nm.strict", "nm.offbyone", "nm.binminus", "nm.zerodiv", "nm.freevar", "nm.shape", "nm.arity", "nm.vars"})
                       => (Tier(cand.prems, ResOfRule(cand)) # "none" /\ ~Entailed(cand.prems, ResOfRule(cand)))
+\* whole proofs (spec -> code): commands of smt/veriT/command.py
+Cmd(k, id, rule, f, cl, pm) == [k |-> k, id |-> id, rule |-> rule, t |-> f, cl |-> cl, pm |-> pm]
+Ids(prefix, n) == [j \in 1..n |-> prefix \o ToString(j)]
+ProofOf(i) ==
+  LET m == Len(i.prems) n == Len(i.cl) IN
+  [kind |-> i.rule \o "/" \o i.mut,
+   cmds |-> [j \in 1..m |-> Cmd("assume", "a" \o ToString(j), "", i.prems[j].c, <<>>, <<>>)]
+            \o << Cmd("step", "t1", i.rule, TrueC, i.cl, Ids("a", m)) >>
+            \o [k \in 1..n |-> Cmd("assume", "b" \o ToString(k), "", Neg(i.cl[k]), <<>>, <<>>)]
+            \o << Cmd("step", "t2", "verit_th_resolution", TrueC, <<>>, <<"t1">> \o Ids("b", n)) >>]
 \* ------------------------------------------------------------------ emission of the candidates as vectors (spec -> code), once, at start-up
 ToJ(i) == [rule |-> i.rule, mut |-> i.mut, prems |-> i.prems, cl |-> i.cl, sizes |-> i.x.sizes, coeffs |-> i.x.coeffs, inst |-> i.x.inst, ctx |-> i.x.ctx]
 ASSUME Emitted == LET cs == SetToSeq(Candidates) IN
                   /\ ndJsonSerialize(IOEnv.VECTOR_FILE, [k \in 1..Len(cs) |-> ToJ(cs[k])])
+                  /\ LET ws == SetToSeq({ c \in Candidates : Wrappable(c) }) IN
+                     /\ ndJsonSerialize(IOEnv.PROOF_FILE, [k \in 1..Len(ws) |-> ProofOf(ws[k])])
+                     /\ PrintT(<<"proofs", Len(ws)>>)
                   /\ PrintT(<<"vectors", Len(cs), "intended", Cardinality(Intended), "rules", Cardinality(Rules)>>)
 =============================================================================
